@@ -6,6 +6,7 @@ import (
 	"math/big"
 	"math/rand"
 	"regexp"
+	"strconv"
 	"strings"
 	"sync"
 	"time"
@@ -347,10 +348,23 @@ func c16JudgeFermat(c *mon.Ctx, k int) {
 			rounds = append(rounds, i-1)
 		}
 	}
-	for _, R := range rounds {
+	// documents that NAME the lint without setting the option: the documented default (100 rounds) stays in force
+	partial := []string{"[e_rsa_fermat_factorization]\n", "[e_rsa_fermat_factorization]\n# Rounds = 3\n", "e_rsa_fermat_factorization = {}\n", "[e_rsa_fermat_factorization]\n[unrelated]\nRounds = 1\n"}
+	for ri, R := range append(append([]int64{}, rounds...), -1) {
 		var reg lint.Registry
 		label := "default (100)"
-		if R == 100 && k%2 == 0 {
+		if R == -1 {
+			R = 100
+			doc := partial[(k+ri)%len(partial)]
+			r2, err := g.Filter(lint.FilterOptions{IncludeNames: []string{"e_rsa_fermat_factorization"}})
+			if err != nil {
+				continue
+			}
+			r2.SetConfiguration(mustConfig(doc))
+			reg = r2
+			label = "default (100), the lint's table present without the option: " + strconv.Quote(doc)
+			c.R.Count("fermat_partial_sections", 1)
+		} else if R == 100 && k%2 == 0 {
 			reg = g // the default, no configuration at all
 		} else {
 			r2, err := g.Filter(lint.FilterOptions{IncludeNames: []string{"e_rsa_fermat_factorization"}})
